@@ -10,22 +10,27 @@ def run():
     rc = 0
     claimed = [c["property_id"].lower() for c in json.load(open(os.path.join(C.VERIF, "MANIFEST.json")))["checks"]]
     lk = open(os.path.join(C.LEAN, "lakefile.toml")).read()
-    exes = [e for e in re.findall(r'name = "(drv_\w+)"', lk) if e[4:] in claimed]
-    mods = ["DoraModel.Props.%s" % c.upper() for c in claimed
-            if os.path.exists(os.path.join(C.LEAN, "DoraModel", "Props", c.upper() + ".lean"))]
-    # regenerated model files must exist before lake can build (each check regenerates them again)
-    for c in claimed:
-        mod = __import__("checks." + c, fromlist=["x"])
+    # drv_c01m, drv_c12mark, … belong to the property whose id they start with
+    exes = [e for e in re.findall(r'name = "(drv_\w+)"', lk) if e[4:7] in claimed]
+    # Props/C01.lean, Props/C01Masm.lean, …: every property-theorem file whose name starts with a claimed id
+    mods = sorted("DoraModel.Props.%s" % f[:-5] for f in os.listdir(os.path.join(C.LEAN, "DoraModel", "Props"))
+                  if f.endswith(".lean") and f[:3].lower() in claimed)
+    # regenerated model files must exist before lake can build (each check regenerates them again);
+    # checks/c01.py, checks/c01_masm.py, …: every check module of a claimed id that has a regenerate()
+    for f in sorted(os.listdir(os.path.join(C.VERIF, "checks"))):
+        if not (f.endswith(".py") and f[:3] in claimed):
+            continue
+        mod = __import__("checks." + f[:-3], fromlist=["x"])
         if hasattr(mod, "regenerate"):
             try:
                 mod.regenerate()
             except Exception as e:  # noqa
-                C.log("regenerate %s: %s" % (c, e))
+                C.log("regenerate %s: %s" % (f[:-3], e))
     ok, out = C.lean_build(mods + exes, timeout=7200)
     C.log("lean (%d modules, %d drivers): %s" % (len(mods), len(exes), "ok" if ok else "FAILED\n" + out[-3000:]))
     rc |= 0 if ok else 1
     crates = sorted(d for d in os.listdir(os.path.join(C.HARNESS, "crates"))
-                    if d in claimed and os.path.exists(os.path.join(C.HARNESS, "crates", d, "Cargo.toml")))
+                    if d[:3] in claimed and os.path.exists(os.path.join(C.HARNESS, "crates", d, "Cargo.toml")))
     for c in crates:
         p, out = C.build_harness("h_" + c, timeout=7200)
         C.log("harness h_%s: %s" % (c, "ok" if p else "FAILED\n" + out[-3000:]))
@@ -35,5 +40,13 @@ def run():
         C.log("toolchain: ok (%s)" % tc["dir"])
     except RuntimeError as e:
         C.log("toolchain: FAILED\n%s" % e)
+        rc |= 1
+    # the tool chain with the cfg-gated hooks on (heap dumps, mark log): shared by C03 and C12
+    try:
+        from . import c03
+        c03.toolchain_verif(tc)
+        C.log("toolchain with hooks: ok")
+    except Exception as e:  # noqa
+        C.log("toolchain with hooks: FAILED\n%s" % e)
         rc |= 1
     return rc
